@@ -1,11 +1,12 @@
 """C02 - MPS export is bit-identical to the eval-mode model and uses the precisions summary() reports.
 
-design     : MPSLifeMC (TLC, exhaustive): every architecture of the 2-D grammar (conv incl. depthwise, conv-bn, linear,
-             linear-bn, relu, pooling, flatten, residual add) x candidate precision tuples x winners per quantiser
-             group.  Invariants: the quantiser found by the as-implemented walk (register_in_mps_quantizers) is the
+design     : MPSLifeMC (TLC, exhaustive): every architecture of the 2-D and of the 1-D grammar (conv incl. depthwise,
+             conv-bn (2-D), linear, linear-bn, relu, pooling, flatten, residual add; a layer object invoked at a second
+             call site) x candidate precision tuples x winners per quantiser group.  Invariants: the quantiser found by the as-implemented walk (register_in_mps_quantizers) is the
              quantiser of the tensor the layer consumes, for every selection (InvPlumb / InvPlumbGroups) outside the
-             signature of finding F40; add operands on one grid; output unquantised; label propagation = components.
-             Expected-to-fail run without the F40 guard (non-vacuity).
+             the signatures of F40 (pinned walk) and F66 (a layer object whose call sites lie in different quantiser
+             groups); add operands on one grid; output unquantised; label propagation = components.
+             Expected-to-fail runs: the pinned walk (F40, repaired) and reuse without the F66 guard (non-vacuity).
 spec->code : the selected states are rebuilt as real MPS models (harness/mps_gen.py): the winners are written into the
              raw coefficients (gaps >= 0.06, random offset/scale), softmax temperature 0.05..20, gumbel on/off, hard
              on/off; export() before or after the eval forward pass.
@@ -21,7 +22,8 @@ from __future__ import annotations
 
 from .. import mps_gen
 
-RULE = ("scenario = (2-D grammar architecture, candidate precision tuples of input / activation / weight quantisers, winner "
+RULE = ("scenario = (1-D or 2-D grammar architecture (MPSConv1d / MPSConv2d / MPSLinear / MPSAdd; optionally one layer object with two "
+        "call sites), candidate precision tuples of input / activation / weight quantisers, winner "
         "per quantiser, softmax temperature, gumbel / hard flags, export before or after the forward pass). Scenarios are "
         "the selected states of the MPSLifeMC configurations (all of them, or a sample stratified by architecture shape where "
         "stated in coverage.replay) plus seeded random architectures with winners drawn per quantiser object. Non-trivial = some "
@@ -33,6 +35,10 @@ ASSUMPTIONS = [
     "PACT clipping values randomised in [0.7, 3.3]; weights scaled so that activations spread over the quantisers' ranges",
     "bit-identity observed on 3 input batches (8 samples) per export, float32, CPU, 1 thread",
     "quantiser sharing and 'output is not quantised' are predictions (SPEC-DRIFT), not clauses of C02",
+    "no plain conv with exactly one input and one output channel (plinio classifies it as depthwise: ambiguous sharing rule)",
+    "1-D: causal (left-padded) or 'same'-padded Conv1d, dilation 1..2, no BatchNorm after a Conv1d (MPS folds Conv2d-BN and Linear-BN only)",
+    "weight sharing: the replay of the reuse configurations (mostly call sites in different quantiser groups = F66) runs only while F66 "
+    "is listed; random networks contain the weight-shared residual block h'=B(h)+h, h''=B(h')+h' (one group), which must pass",
 ]
 
 
@@ -42,11 +48,14 @@ def run(tier: str, seed: int, replay=None) -> int:
         "rule": RULE, "assumptions": ASSUMPTIONS,
         # (config, max replayed states (0 = all), states per model build (0 = all), label)
         "design": ([("MPSLifeMC_arch_quick", 390, 3, "arch"), ("MPSLifeMC_tuples_quick", 300, 1, "tuples"),
-                    ("MPSLifeMC_all_quick", 330, 30, "allwinners")] if q else
+                    ("MPSLifeMC_all_quick", 330, 30, "allwinners"), ("MPSLifeMC_d1_quick", 180, 3, "arch1d"),
+                    ("MPSLifeMC_reuse_quick", 120, 3, "reuse", "F66")] if q else
                    [("MPSLifeMC_arch_quick", 0, 0, "arch"), ("MPSLifeMC_arch_thorough", 2400, 3, "arch4"),
                     ("MPSLifeMC_arch5_thorough", 1200, 3, "arch5"), ("MPSLifeMC_tuples_thorough", 2000, 2, "tuples"),
-                    ("MPSLifeMC_all_thorough", 2500, 40, "allwinners"), ("MPSLifeMC_few_thorough", 1200, 3, "few")]),
-        "sanity": ["MPSLifeMC_nokf40"],
+                    ("MPSLifeMC_all_thorough", 2500, 40, "allwinners"), ("MPSLifeMC_few_thorough", 1200, 3, "few"),
+                    ("MPSLifeMC_d1_quick", 0, 0, "arch1d"), ("MPSLifeMC_d1_thorough", 1500, 3, "arch1d4"),
+                    ("MPSLifeMC_reuse_thorough", 1500, 3, "reuse", "F66"), ("MPSLifeMC_reuse1d_thorough", 600, 3, "reuse1d", "F66")]),
+        "sanity": ["MPSLifeMC_nokf40", "MPSLifeMC_noreuse"],
         "n_random": 60 if q else 600, "random_sels": 2 if q else 3, "max_nodes": 9 if q else 12,
         "procs": 8, "tlc_workers": 8,
     }
